@@ -635,6 +635,19 @@ def _run_graph(case, obs):
             if not is_crash(res):
                 J.target_query(f"astar[{gname},{hname}]", res, s, gs, dist, key, labelled=True)
 
+    # --- weighted A* (weight > 1): outside the optimality clause, but "any returned path starts at the source, ends at
+    # the target, uses only existing edges and its edge weights sum to the reported distance" is judged as a
+    # certificate (a path must also be found whenever the goal is reachable)
+    from random import Random as _R
+
+    wr = _R(case.get("nb_seed", 0) ^ 0x5A17)
+    for wgt in wr.sample([1.5, 2, 3, 5, 20], 2):
+        hname, h = wr.choice(heur)
+        res = call(obs, astar, qlabels[s], pred, nb, h, weight=wgt, what=f"astar[pred,{hname},weight={wgt}]", budget=B)
+        if not is_crash(res):
+            obs.event("sp.weighted-astar-certificate")
+            J.target_query(f"astar[weight={wgt}]", res, s, goals, d_goal, ("wastar", s, wgt), labelled=True, shortest=False)
+
     # --- sweep: every other target from the same source ("for every queried pair"), own heuristic per target
     others = [j for j in range(n) if j != t]
     if len(others) > 8:
